@@ -102,8 +102,9 @@ func NewMultilineReverseSuffixSearcher(
 // SetPrefixLiterals enables fast path verification using prefix literals.
 // Call this after construction if the pattern has a simple structure: ^prefix.*suffix
 func (s *MultilineReverseSuffixSearcher) SetPrefixLiterals(prefixLiterals *literal.Seq) {
-	if prefixLiterals != nil && !prefixLiterals.IsEmpty() {
-		// Get the longest common prefix for verification
+	if prefixLiterals != nil && !prefixLiterals.IsEmpty() && !prefixLiterals.IsPartialCoverage() {
+		// The longest common prefix of a full prefix cover is a necessary
+		// condition for a match at the line start
 		s.prefixBytes = prefixLiterals.LongestCommonPrefix()
 	}
 }
@@ -137,131 +138,70 @@ func (s *MultilineReverseSuffixSearcher) verifyPrefix(haystack []byte, at int) b
 	return bytes.HasPrefix(haystack[at:], s.prefixBytes)
 }
 
-// Find searches using suffix literal prefilter + line-aware verification.
+// findFrom is the candidate loop shared by Find, FindAt, FindIndicesAt and IsMatch.
+// It returns the leftmost match that starts at a line start >= at.
 //
-// Fast path (when prefix literals available):
-//  1. Find suffix using SIMD prefilter
-//  2. Find line start (backward scan using SIMD)
-//  3. Verify prefix with simple byte comparison
-//  4. Return match immediately if prefix matches
-//  5. On failure, skip to next line (all candidates on same line will fail)
+//  1. Find a suffix candidate using the prefilter (SIMD)
+//  2. Find the start of its line (backward scan using SIMD)
+//  3. The prefix literal, when there is one, is a necessary condition at the line
+//     start: a cheap byte comparison rejects the line
+//  4. The anchored forward DFA at the line start decides and gives the match end
+//     (the LAST suffix on the line for a greedy `.*`, and only if everything between
+//     prefix and suffix matches too)
+//  5. On failure continue on the next line: the pattern cannot match '\n', so every
+//     other candidate on this line has the same line start and fails as well
 //
-// Slow path (complex patterns):
-//  1. Same candidate finding
-//  2. Use forward DFA for verification
-//
-// Performance: O(n) with very low constant factor for fast path.
-// Key optimization: when prefix fails, skip entire line - avoids O(n²) worst case.
-func (s *MultilineReverseSuffixSearcher) Find(haystack []byte) *Match {
-	if len(haystack) == 0 {
-		return nil
-	}
-
-	// Iterate through suffix candidates
-	pos := 0
-	for {
-		// Find next suffix candidate using prefilter (SIMD accelerated)
+// A line that starts before 'at' cannot hold a match at or after 'at': `^` only
+// matches at a line start.
+func (s *MultilineReverseSuffixSearcher) findFrom(haystack []byte, at int, fwdCache *lazy.DFACache) (start, end int, found bool) {
+	pos := at
+	for pos < len(haystack) {
 		suffixPos := s.prefilter.Find(haystack, pos)
 		if suffixPos == -1 {
-			return nil
+			return -1, -1, false
 		}
 
-		// Find the start of the line containing this suffix
 		lineStart := findLineStart(haystack, suffixPos)
-
-		// Fast path: simple prefix verification (just byte comparison)
-		if len(s.prefixBytes) > 0 {
-			if s.verifyPrefix(haystack, lineStart) {
-				// Match found! No DFA needed.
-				return NewMatch(lineStart, suffixPos+s.suffixLen, haystack)
+		if lineStart >= at && (len(s.prefixBytes) == 0 || s.verifyPrefix(haystack, lineStart)) {
+			endPos := s.forwardDFA.SearchAtAnchored(fwdCache, haystack, lineStart)
+			if endPos >= 0 {
+				return lineStart, endPos, true
 			}
-			// Prefix doesn't match at this line start.
-			// Optimization: skip to next line - all other candidates on this line
-			// will have the same lineStart and will also fail.
-			nextLine := bytes.IndexByte(haystack[suffixPos:], '\n')
-			if nextLine == -1 {
-				return nil // No more lines
-			}
-			pos = suffixPos + nextLine + 1
-		} else {
-			// Slow path: use DFA for complex pattern verification
-			fwdCache := s.fwdCachePool.Get().(*lazy.DFACache)
-			end := s.forwardDFA.SearchAtAnchored(fwdCache, haystack, lineStart)
-			s.fwdCachePool.Put(fwdCache)
-			if end >= 0 {
-				return NewMatch(lineStart, end, haystack)
-			}
-			// Move past this suffix candidate
-			pos = suffixPos + 1
 		}
 
-		if pos >= len(haystack) {
-			return nil
+		nextLine := bytes.IndexByte(haystack[suffixPos:], '\n')
+		if nextLine == -1 {
+			return -1, -1, false // No more lines
 		}
+		pos = suffixPos + nextLine + 1
 	}
+	return -1, -1, false
+}
+
+// Find searches using suffix literal prefilter + line-aware verification.
+//
+// Performance: O(n): every line is verified at most once.
+func (s *MultilineReverseSuffixSearcher) Find(haystack []byte) *Match {
+	return s.FindAt(haystack, 0)
 }
 
 // FindAt searches for a match starting from position 'at'.
 //
 // Returns the first match starting at or after position 'at'.
 // Essential for FindAll iteration.
-//
-// Performance: O(n) with very low constant factor for fast path.
-// Key optimization: when prefix fails, skip entire line - avoids O(n²) worst case.
 func (s *MultilineReverseSuffixSearcher) FindAt(haystack []byte, at int) *Match {
-	if at >= len(haystack) {
+	start, end, found := s.FindIndicesAt(haystack, at)
+	if !found {
 		return nil
 	}
-
-	pos := at
-	for {
-		// Find next suffix candidate starting from pos
-		suffixPos := s.prefilter.Find(haystack, pos)
-		if suffixPos == -1 {
-			return nil
-		}
-
-		// Find line start (but not before 'at' for FindAt semantics)
-		lineStart := findLineStart(haystack, suffixPos)
-		if lineStart < at {
-			// The line starts before our search position.
-			lineStart = at
-		}
-
-		// Fast path: simple prefix verification
-		if len(s.prefixBytes) > 0 {
-			if s.verifyPrefix(haystack, lineStart) {
-				return NewMatch(lineStart, suffixPos+s.suffixLen, haystack)
-			}
-			// Prefix doesn't match - skip to next line
-			nextLine := bytes.IndexByte(haystack[suffixPos:], '\n')
-			if nextLine == -1 {
-				return nil // No more lines
-			}
-			pos = suffixPos + nextLine + 1
-		} else {
-			// Slow path: use DFA
-			fwdCache := s.fwdCachePool.Get().(*lazy.DFACache)
-			end := s.forwardDFA.SearchAtAnchored(fwdCache, haystack, lineStart)
-			s.fwdCachePool.Put(fwdCache)
-			if end >= 0 {
-				return NewMatch(lineStart, end, haystack)
-			}
-			// Move past this suffix candidate
-			pos = suffixPos + 1
-		}
-
-		if pos >= len(haystack) {
-			return nil
-		}
-	}
+	return NewMatch(start, end, haystack)
 }
 
 // FindIndicesAt returns match indices starting from position 'at' - zero allocation version.
 func (s *MultilineReverseSuffixSearcher) FindIndicesAt(haystack []byte, at int) (start, end int, found bool) {
 	fwdCache := s.fwdCachePool.Get().(*lazy.DFACache)
 	defer s.fwdCachePool.Put(fwdCache)
-	return s.findIndicesAtImpl(haystack, at, fwdCache)
+	return s.findFrom(haystack, at, fwdCache)
 }
 
 // FindIndicesAtWithCaches is like FindIndicesAt but uses an externally provided cache
@@ -271,109 +211,11 @@ func (s *MultilineReverseSuffixSearcher) FindIndicesAtWithCaches(haystack []byte
 	if fwdCache == nil {
 		return s.FindIndicesAt(haystack, at)
 	}
-	return s.findIndicesAtImpl(haystack, at, fwdCache)
-}
-
-// findIndicesAtImpl is the shared implementation for FindIndicesAt and FindIndicesAtWithCaches.
-func (s *MultilineReverseSuffixSearcher) findIndicesAtImpl(haystack []byte, at int, fwdCache *lazy.DFACache) (start, end int, found bool) {
-	if at >= len(haystack) {
-		return -1, -1, false
-	}
-
-	pos := at
-	for {
-		// Find next suffix candidate starting from pos
-		suffixPos := s.prefilter.Find(haystack, pos)
-		if suffixPos == -1 {
-			return -1, -1, false
-		}
-
-		// Find line start (but not before 'at' for FindAt semantics)
-		lineStart := findLineStart(haystack, suffixPos)
-		if lineStart < at {
-			lineStart = at
-		}
-
-		// Fast path: simple prefix verification
-		if len(s.prefixBytes) > 0 {
-			if s.verifyPrefix(haystack, lineStart) {
-				return lineStart, suffixPos + s.suffixLen, true
-			}
-			// Prefix doesn't match - skip to next line
-			nextLine := bytes.IndexByte(haystack[suffixPos:], '\n')
-			if nextLine == -1 {
-				return -1, -1, false
-			}
-			pos = suffixPos + nextLine + 1
-		} else {
-			// Slow path: use DFA
-			endPos := s.forwardDFA.SearchAtAnchored(fwdCache, haystack, lineStart)
-			if endPos >= 0 {
-				return lineStart, endPos, true
-			}
-			// Move past this suffix candidate
-			pos = suffixPos + 1
-		}
-
-		if pos >= len(haystack) {
-			return -1, -1, false
-		}
-	}
+	return s.findFrom(haystack, at, fwdCache)
 }
 
 // IsMatch checks if the pattern matches using suffix prefilter + line-aware verification.
-//
-// Optimized for boolean matching:
-//   - Uses prefilter for fast candidate finding
-//   - Fast path: simple prefix byte comparison
-//   - Slow path: forward DFA verification
-//   - Early termination on first match
-//   - No Match object allocation
-//
-// Performance: O(n) with very low constant factor for fast path.
-// Key optimization: when prefix fails, skip entire line - avoids O(n²) worst case.
 func (s *MultilineReverseSuffixSearcher) IsMatch(haystack []byte) bool {
-	if len(haystack) == 0 {
-		return false
-	}
-
-	// Iterate through suffix candidates
-	pos := 0
-	for {
-		// Find next suffix candidate
-		suffixPos := s.prefilter.Find(haystack, pos)
-		if suffixPos == -1 {
-			return false
-		}
-
-		// Find line start
-		lineStart := findLineStart(haystack, suffixPos)
-
-		// Fast path: simple prefix verification
-		if len(s.prefixBytes) > 0 {
-			if s.verifyPrefix(haystack, lineStart) {
-				return true
-			}
-			// Prefix doesn't match - skip to next line
-			nextLine := bytes.IndexByte(haystack[suffixPos:], '\n')
-			if nextLine == -1 {
-				return false // No more lines
-			}
-			pos = suffixPos + nextLine + 1
-		} else {
-			// Slow path: use DFA
-			fwdCache := s.fwdCachePool.Get().(*lazy.DFACache)
-			matched := s.forwardDFA.SearchAtAnchored(fwdCache, haystack, lineStart) >= 0
-			s.fwdCachePool.Put(fwdCache)
-			if matched {
-				return true
-			}
-			// Move past this suffix candidate
-			pos = suffixPos + 1
-		}
-
-		if pos >= len(haystack) {
-			return false
-		}
-	}
+	_, _, found := s.FindIndicesAt(haystack, 0)
+	return found
 }
